@@ -83,7 +83,52 @@ class Minimiser:
             return r[1]
         return case
 
+    def run_session(self, case):
+        case = copy.deepcopy(case)
+        # 1. fewer invocations
+        case = self.ddmin_list(case, lambda c: c["session"], lambda c, v: (c.__setitem__("session", v), c)[1], "invocations")
+        # 2. the same, simple machine for every invocation
+        def all_env(key, val):
+            def m(c):
+                for inv in c["session"]:
+                    if val is None:
+                        inv["env"].pop(key, None)
+                    else:
+                        inv["env"][key] = copy.deepcopy(val)
+            return m
+        case = self.try_one(case, "no touched headers", all_env("touched", {}))
+        case = self.try_one(case, "directories sorted", lambda c: (all_env("listdir", {})(c), all_env("listdir_default", "sorted")(c)))
+        case = self.try_one(case, "stdout -> block buffered 4096", lambda c: (all_env("stdout_mode", "block")(c), all_env("stdout_bufsize", 4096)(c)))
+        case = self.try_one(case, "git -> ok", all_env("git", "ok:x"))
+        case = self.try_one(case, "hashseed -> 0", lambda c: (c.__setitem__("hashseed", 0), [inv.__setitem__("hashseed", 0) for inv in c["session"]]))
+        # 3. smaller selections, invocation by invocation
+        for k in range(len(case["session"])):
+            if k >= len(case["session"]):
+                break
+            for key in ("constants", "units"):
+                cur = case["session"][k]["selection"].get(key)
+                if cur == "ALL":
+                    case = self.try_one(case, "invocation %d: %s ALL -> none" % (k, key), lambda c, k=k, key=key: c["session"][k]["selection"].__setitem__(key, []))
+                    cur = case["session"][k]["selection"].get(key)
+                    if cur == "ALL":
+                        full = self.ctx.tree.units if key == "units" else self.ctx.tree.constants
+                        case = self.try_one(case, "invocation %d: %s ALL -> explicit" % (k, key), lambda c, k=k, key=key, full=full: c["session"][k]["selection"].__setitem__(key, list(full)))
+                if isinstance(case["session"][k]["selection"].get(key), list) and case["session"][k]["selection"][key]:
+                    case = self.ddmin_list(
+                        case,
+                        lambda c, k=k, key=key: c["session"][k]["selection"][key],
+                        lambda c, v, k=k, key=key: (c["session"][k]["selection"].__setitem__(key, v), c)[1],
+                        "invocation %d %s" % (k, key),
+                    )
+            case = self.try_one(case, "invocation %d: with io, version x" % k, lambda c, k=k: (c["session"][k]["selection"].__setitem__("io", True), c["session"][k]["selection"].__setitem__("version_id", "x")))
+            case = self.try_one(case, "invocation %d: toolchain g++/c++14" % k, lambda c, k=k: c["session"][k].__setitem__("toolchain", {"a": ["g++", "c++14"]}))
+        final = self.fails(case)
+        self.evals += 1
+        return case, final
+
     def run(self, case):
+        if "session" in case:
+            return self.run_session(case)
         tree = self.ctx.tree
         case = copy.deepcopy(case)
         # 1. faults
@@ -113,6 +158,8 @@ class Minimiser:
         case = self.try_one(case, "LF checkout", env_set("crlf", False))
         if "base_git" not in case:
             case = self.try_one(case, "git -> ok", env_set("git", "ok:x"))
+        if "git_repo" not in (case.get("base_env") or {}):
+            case = self.try_one(case, "tree tracked by git", env_set("git_repo", "tracked"))
         case = self.try_one(case, "hashseed -> 0", lambda c: c.__setitem__("hashseed", 0))
         # 3. selection
         sel = case["selection"]
